@@ -53,7 +53,12 @@ impl Parsed {
                 Span {
                     file: i,
                     start: 0,
-                    end: 1,
+                    // the first character of the file (nothing if it is empty)
+                    end: file
+                        .contents
+                        .chars()
+                        .next()
+                        .map_or(0, char::len_utf8),
                 },
                 ident,
             );
